@@ -3,6 +3,7 @@ pub mod bfs;
 pub mod cli;
 pub mod engine;
 pub mod report;
+pub mod sched;
 pub mod sx;
 
 pub use report::{Report, Tier, catch};
